@@ -55,7 +55,8 @@
         of the rows returns;
       - `parcpy` (`C12_generated_parcpy_any_order`): the chunk loop is a `Loop.whileM` on `(heap, i)`; the lifted body run for
         the chunk starting at `i` (`ParGen.chunkBody`) over any permutation of `ParCopy.starts` = the generated `parcpy`
-        (which `ParGen.parcpy_seq` shows to visit exactly these starts); uses `C12_parcpy_chunks`; parSetZero is not translated;
+        (which `ParGen.parcpy_seq` shows to visit exactly these starts); uses `C12_parcpy_chunks`; `parSetZero`
+        (`C12_generated_parSetZero_any_order`, Gen/ParZeroGen.lean, Lemmas/ParGenZero.lean): the same for the chunked `memset`;
       - Merkle: leaf loops and level loops of all six translated builders (`C12_generated_merkletree_*`), by frame +
         dependency of the generated bodies on the ONE tree `Region` (Lemmas/ParGenMerkle.lean) and `C12_merkle_leaves` /
         `C12_merkle_level`; the hypotheses on the hashes are discharged by the bridge (`C12_linear_hash_*`, `hash_*_node`).
@@ -87,6 +88,7 @@ import GoldilocksVerif.Lemmas.MerklePar
 import GoldilocksVerif.Lemmas.BridgeNttIters
 import GoldilocksVerif.Lemmas.ParGenNtt
 import GoldilocksVerif.Lemmas.ParGenCopy
+import GoldilocksVerif.Lemmas.ParGenZero
 import GoldilocksVerif.Lemmas.ParGenMerkle
 import GoldilocksVerif.Lemmas.BridgePerm
 import GoldilocksVerif.Lemmas.BridgeMerkleAvx
@@ -1017,6 +1019,38 @@ theorem C12_generated_parcpy_any_order (fuel : Nat) (hp : Heap) (D S : Nat) (hD 
       rintro ⟨b, j⟩ ⟨hb, h1, h2⟩
       exact ⟨hb, h1, h2⟩
   rw [key, hord, parcpy_seq hp D S hD hne size nt hnt hs8 fuel hfuel]
+  exact ⟨rfl, _, rfl⟩
+
+/-! ### parSetZero: the chunk loop (goldilocks_base_field.cpp:93; body `parSetZero_loop1` of Gen/ParZeroGen.lean) -/
+
+open GoldilocksVerif.ParCopy in
+/-- **generated parSetZero, chunks in any order.**  `zChunkBody … i` (Lemmas/ParGenZero.lean) is the lifted body
+    `Gen.ParZeroGen.parSetZero_loop1` run for the chunk that starts at `i`.  For every permutation `order` of the hand model's chunk
+    starts (`ParCopy.starts`, which `ParGen.parSetZero_seq` shows to be the starts the generated loop visits), running the generated
+    body over `order` gives what the generated `parSetZero` returns.  `size·8` bytes fit in 64 bits; any `int` thread count (zero
+    and negative included); fuel > number of chunks.
+    Proof: per-chunk bridge `ParGen.zchunk_rep` + `C12_parcpy_chunks` (Bernstein's conditions for the chunks; nothing is read). -/
+theorem C12_generated_parSetZero_any_order (fuel : Nat) (hp : Heap) (D : Nat) (hD : D < hp.size)
+    (size : BitVec 64) (nt : Int) (hnt : nt < 2 ^ 31) (hs8 : size.toNat * 8 < 2 ^ 64)
+    (hfuel : (starts size.toNat nt).length < fuel) (order : List Nat) (hperm : order.Perm (starts size.toNat nt)) :
+    inOrder (zChunkBody ⟨D, 0⟩ size (genChunk size nt)) order hp = Gen.ParZeroGen.parSetZero fuel hp ⟨D, 0⟩ size nt
+    ∧ ∃ hp', Gen.ParZeroGen.parSetZero fuel hp ⟨D, 0⟩ size nt = some hp' := by
+  have key := inOrder_rep (hp.setBlock D) (fun i B => zeroChunk size.toNat nt i #[] B)
+    (zChunkBody ⟨D, 0⟩ size (genChunk size nt)) order
+    (fun i hi B => zchunk_rep hp D hD size nt hnt hs8 #[] i ((hperm.mem_iff).1 hi) B) (hp.block D)
+  rw [Heap.setBlock_block] at key
+  have hord : order.foldl (fun B i => zeroChunk size.toNat nt i #[] B) (hp.block D)
+      = (starts size.toNat nt).foldl (fun B i => zeroChunk size.toNat nt i #[] B) (hp.block D) := by
+    refine writers_any_order (fun i => zeroChunk size.toNat nt i) _ _ (fun i => zeroChunk_writer size.toNat nt i) _ _ hperm ?_
+      #[] (hp.block D)
+    intro i hi i' hi' hne'
+    refine (C12_parcpy_chunks 1 0 size.toNat nt i i' (by decide) ((hperm.mem_iff).1 hi) ((hperm.mem_iff).1 hi') hne').congr
+      ?_ ?_ ?_ ?_
+    · rintro ⟨b, j⟩ ⟨_, hf⟩; exact hf.elim
+    · rintro ⟨b, j⟩ ⟨hb, h1, h2⟩; exact ⟨hb, h1, h2⟩
+    · rintro ⟨b, j⟩ ⟨_, hf⟩; exact hf.elim
+    · rintro ⟨b, j⟩ ⟨hb, h1, h2⟩; exact ⟨hb, h1, h2⟩
+  rw [key, hord, parSetZero_seq hp D hD size nt hnt hs8 #[] fuel hfuel]
   exact ⟨rfl, _, rfl⟩
 
 /-! ### Merkle builders: leaf loops and level loops of the generated builders
